@@ -484,6 +484,22 @@ def snapshot_vs_single(snap):
         chk('booster:', e, ['power_state', 'simple', 'pc', 'voltage_known', 'voltage', 'temp_known', 'temp'])
     for e in st.get('track_outputs', []):
         chk('to:', e, ['cs_state'])
+    # the documented index getters: position of the entity in the snapshot's array, -1 when it is not in that array
+    for kind, name in (('points_board', 'point'), ('signals_board', 'signal'), ('segments', 'segment')):
+        arr = st.get(kind, [])
+        for i, e in enumerate(arr):
+            ix = single.get(f'index:{name}:{e["id"]}')
+            if ix is not None and ix != i:
+                diffs.append((f'index:{name}:{e["id"]}', i, ix))
+    for kind, name in (('points_dcc', 'point'), ('signals_dcc', 'signal')):
+        for e in st.get(kind, []):
+            ix = single.get(f'index:{name}:{e["id"]}')
+            if ix is not None and ix != -1:
+                diffs.append((f'index:{name}:{e["id"]}', -1, ix))
+    for name in ('point', 'signal', 'segment'):
+        ix = single.get(f'index:{name}:no-such-id')
+        if ix is not None and ix != -1:
+            diffs.append((f'index:{name}:no-such-id', -1, ix))
     for e in st.get('trains', []):
         chk('train:', e, ['on_track', 'orientation', 'speed_step', 'forwards', 'ack', 'kmh', 'periphs', 'dec'])
         for p in e.get('periphs') or []:
